@@ -1,6 +1,7 @@
 // MarlinPST13::commit, check_degrees_and_bounds, check_hiding_bound, convert_to_bigints (marlin/marlin_pst13_pc/mod.rs)  (C08, C07, C17)
 //@use core ops_gen labeled_comm sponge std
 //@spec ring
+//@typemap /\bP::Term::/ => Term::
 //@typemap /<E>/ => 
 //@typemap /Self::CommitterKey/ => CommitterKey
 //@typemap /Self::Commitment\b/ => marlin_pc::Commitment
@@ -127,7 +128,7 @@ pub fn table_filter<F: Fn(&Term) -> bool>(t: &TermTable, keep: F, Ghost(pred): G
     ensures forall|m: Seq<(usize, usize)>| #[trigger] pst_has(&r, m) == (pst_has(t, m) && pred(m)), forall|m: Seq<(usize, usize)>| #[trigger] pst_has(&r, m) ==> pst_key(&r, m) == pst_key(t, m)
 { unimplemented!() }
 #[verifier::external_body] pub fn table_index(t: &TermTable, term: &Term) -> (r: G1Affine) ensures pst_has(t, term.v@), r@ == pst_key(t, term.v@) { unimplemented!() }   // `t[&term]`: a missing monomial aborts
-impl Term { #[verifier::external_body] pub fn new(v: Vec<(usize, usize)>) -> (r: Term) ensures v@.len() == 0 ==> r.v@ == Seq::<(usize, usize)>::empty() { unimplemented!() } }      // SparseTerm::new (normal form; the empty list stays empty)
+impl Term { #[verifier::external_body] pub fn new(v: Vec<(usize, usize)>) -> (r: Term) ensures v@.len() == 0 ==> r.v@ == Seq::<(usize, usize)>::empty(), (v@.len() == 1 && v@[0].1 > 0) ==> r.v@ == v@ { unimplemented!() } }      // SparseTerm::new (normal form; the empty list stays empty)
 #[verifier::external_body] pub fn vec_prefix_incl(e: &Vec<G1Affine>, k: usize) -> (r: Vec<G1Affine>) requires k < e@.len() ensures r@ == e@.subrange(0, k + 1) { unimplemented!() }    // e[..=k].to_vec()
 #[verifier::external_body] pub fn vec_g2_clone(v: &Vec<G2Affine>) -> (r: Vec<G2Affine>) ensures r@ == v@ { unimplemented!() }
 #[verifier::external_body] pub fn g2p_clone(v: &G2Prepared) -> (r: G2Prepared) ensures r == *v { unimplemented!() }
@@ -309,8 +310,9 @@ impl MarlinPST13 {
 //@rw * /label\.to_string\(\)/ => string_to_string(label)
 //@rw 1 /let mut commitments = Vec::new\(\);/ => let mut commitments: Vec<LabeledCommitment<marlin_pc::Commitment>> = Vec::new();
 //@rw 1 /let mut randomness = Vec::new\(\);/ => let mut randomness: Vec<Randomness> = Vec::new();
-//@rw 1 /(?s)let powers_of_g = ark_std::cfg_iter!\(polynomial\.terms\(\)\)\s*\.map\(\|\(_, term\)\| \*ck\.powers_of_g\.get\(term\)\.unwrap\(\)\)\s*\.collect::<Vec<_>>\(\);/ => let powers_of_g: Vec<G1Affine> = polynomial.terms().iter().map(|ct: &(Fr, Term)| -> (g: G1Affine) ensures g@ == pst_key(&ck.powers_of_g, ct.1.v@) { let term = &ct.1; table_get(&ck.powers_of_g, term) }).collect();
+//@rw 1 /(?s)let powers_of_g = ark_std::cfg_iter!\(polynomial\.terms\(\)\)\s*\.map\(\|\(_, term\)\| (.*?)\)\s*\.collect::<Vec<_>>\(\);/ => let powers_of_g: Vec<G1Affine> = polynomial.terms().iter().map(|ct: &(Fr, Term)| -> (g: G1Affine) ensures g@ == pst_key(&ck.powers_of_g, ct.1.v@) { let term = &ct.1; \1 }).collect();
             proof { assert(g1views(powers_of_g@) =~= keys_of(&ck.powers_of_g, polynomial.terms@)); }
+//@rw * /\*ck\.powers_of_g\.get\(([^()]*)\)\.unwrap\(\)/ => table_get(&ck.powers_of_g, \1)
 //@rw 1 /(?s)let powers_of_gamma_g = rand\s*\.blinding_polynomial\s*\.terms\(\)\s*\.iter\(\)\s*\.map\(\|\(_, term\)\| \{(.*?)\n\s*\}\)\s*\.collect::<Vec<_>>\(\);/ => let powers_of_gamma_g: Vec<G1Affine> = rand.blinding_polynomial.terms().iter().map(|ct: &(Fr, Term)| -> (g: G1Affine)
                     requires pst_ck_wf(ck), ct.1.v@.len() <= 1, ct.1.v@.len() == 1 ==> (ct.1.v@[0].0 < ck.num_vars && 1 <= ct.1.v@[0].1 <= ck.supported_degree + 1)
                     ensures g@ == gamma_key(ck, ct.1.v@) { let term = &ct.1; proof { reveal_with_fuel(tdeg, 2); } \1 }).collect();
